@@ -124,6 +124,8 @@ def run(ctx):
         for _ in range(40 if big else 8):
             s = bytes(rnd.choice(cls + [rnd.randrange(256)]) for _ in range(L))
             ev += bytes_events(s, [-1, 1, 0, 2, 3, 4, 5, L], [NONE, 8 * L - 3, 8 * L, 8 * L + 5])
+    for s0 in (b'\x00\x00\x0a\x0b', b'\x00\x00\x00\x00\x01\x02', b'\x0a\x0b\x00\x00', b'\x01\x02\x00\x00\x03\x04', b'\x00\x00\x00\x07\x00\x00', b'\x00' * 6, b'\x00\x00\x00\x00\x00\x00\x00\x09'):
+        ev += bytes_events(s0, [-1, 1, 0, 2, 3, 4, len(s0)], [NONE, 8 * len(s0) - 9, 8 * len(s0)])       # all-zero groups at the start / middle / end of a mixed-endian string
     for e in ev: ctx.mark(('b', str(e['s']), e['order'], e['size']))
     ctx.exhaustive_subspaces.append('every 1-byte string and 256 class pairs of 2-byte strings under bitorder -1,+1,0,2(,3) and several sizes')
     validate_events(ctx, ev, 'bytes constructors')
